@@ -86,6 +86,7 @@ Enabled(s, c) ==
     [] s.b = "TB" ->
          (CASE c.m = "path" -> ~s.ts.path
            [] c.m = "type_params" -> TRUE
+           [] c.m \in {"type_params_macro", "named_type_params_macro"} -> s.f = "M"      \* the exported macros build MetaForm parameters
            [] c.m \in {"docs", "docs_always", "docs_portable"} -> DocsSetterOK(s.f, c.m)
            [] c.m = "composite" -> s.ts.path /\ LET r == Nested("FS", s.f, c.k, c.seq) IN r.ok /\ ~r.done
            [] c.m = "variant" -> s.ts.path /\ LET r == Nested("VS", s.f, <<>>, c.seq) IN r.ok /\ ~r.done
@@ -115,6 +116,10 @@ Apply(s, c) ==
            [] c.m = "variant_unit" -> [s EXCEPT !.acc = Append(@, [name |-> c.name, fields |-> <<>>, index |-> c.i, docs |-> <<>>])])
     [] s.b = "TB" ->
          (CASE c.m = "path" -> [s EXCEPT !.ts.path = TRUE, !.acc.path = Some(c.p)]
+           \* type_params![A, B]: each parameter is named by the text of its type and carries that type;
+           \* named_type_params![(N, A), ..]: named N, carrying A
+           [] c.m = "type_params_macro" -> [s EXCEPT !.acc.params = [i \in 1..Len(c.tys) |-> [name |-> c.tys[i], ty |-> <<CanonTy(c.tys[i])>>]]]
+           [] c.m = "named_type_params_macro" -> [s EXCEPT !.acc.params = [i \in 1..Len(c.ps) |-> [name |-> c.ps[i][1], ty |-> <<CanonTy(c.ps[i][2])>>]]]
            [] c.m = "type_params" -> [s EXCEPT !.acc.params = [i \in 1..Len(c.ps) |-> [name |-> c.ps[i].name, ty |-> IF c.ps[i].ty = <<>> THEN <<>> ELSE <<(IF s.f = "M" THEN CanonTy(c.ps[i].ty[1]) ELSE c.ps[i].ty[1])>>]]]
            [] OTHER -> SetDocs(s, c))
 
